@@ -258,7 +258,9 @@ def _run_monitor(pid, rng, budget, tier):
         mon.case(e.case)
         mon.fail("valid call raised", e.case, "%s: %s" % (type(e.exc).__name__, e.exc))
         return mon
-    except (IndexError, KeyError, TypeError, AttributeError, ValueError, ZeroDivisionError) as e:
+    except RecursionError:
+        raise
+    except Exception as e:  # noqa: BLE001  (IndexError, KeyError, TypeError, AttributeError, ValueError, ArithmeticError ...)
         # the predicate could not even be evaluated on what the implementation returned (wrong shape, None where a
         # number belongs, ...): reported against the case being examined
         import traceback
